@@ -692,6 +692,9 @@ func netEngine(args []string, in *bufio.Scanner, out *bufio.Writer) {
 				j, _ := strconv.Atoi(f[2])
 				v := map[string]int{"ok": linkOK, "cut": linkCut, "hold": linkHold}[f[3]]
 				s.mu.Lock()
+				if v == linkOK && s.grp[i] != s.grp[j] {
+					v = linkCut // "ok" restores the link to what the partition allows
+				}
 				s.link[i][j] = v
 				s.mu.Unlock()
 				s.cancelStreams(func(st *simStream) bool { return s.reach(st.from, st.to) != linkOK || s.reach(st.to, st.from) != linkOK })
